@@ -252,6 +252,28 @@ def check(prop, tier, seed, verbose=False, list_only=False):
             lines.append('    %s %s' % (f.get('what', ''), ('| ' + f['clause']) if f.get('clause') else ''))
         if rp.get('summary'):
             lines.append('  replay: %s' % rp['summary'])
+    # bounded stand-in: when a deductive obligation is UNDECIDED (construct outside the verifier's reach), the real
+    # function is compared with the executable reference of its contract over the bounded token space; a
+    # disagreement that replays on the real code is reported as a violation, labelled bounded
+    standin = []
+    if undec and spec.get('standin'):
+        for kind in spec['standin']:
+            try:
+                inp = witness.search_kind(kind, seed)
+            except Exception as ex:  # pragma: no cover
+                inp = None
+            standin.append({'kind': kind, 'found': inp})
+            if inp:
+                o = {'name': 'standin:%s' % kind, 'engine': 'bounded-standin', 'status': 'failed',
+                     'failed': [{'what': 'bounded stand-in (deductive check undecided: %s): real code disagrees with the reference of the contract' % (undec[0].get('why') or '')[:160],
+                                 'clause': inp.get('desc', '')}], 'standin_input': inp}
+                failed.append(o)
+                violations += 1
+                rp = witness.make_replay(prop, o, ctx)
+                lines.append('VIOLATION property=%s replay=%s' % (prop, rp['path']))
+                lines.append('  bounded stand-in for undecided obligation(s): %s' % ', '.join(u['name'] for u in undec[:3]))
+                lines.append('  replay: %s' % rp.get('summary', ''))
+    ctx.standin = standin
     wall = time.time() - t0
     write_evidence(prop, tier, seed, spec, obs, proved, bounded, deferred, failed, undec, violations, wall, ctx)
     for ln in lines:
@@ -297,6 +319,7 @@ def write_evidence(prop, tier, seed, spec, obs, proved, bounded, deferred, faile
             'bounded_obligations': [{'name': o['name'], 'bound': o['bounded'], 'status': o['status']} for o in bounded],
             'bounded_count_not_in_discharged': len(bounded),
             'deferred': [{'name': o['name'], 'why': o.get('why')} for o in deferred],
+            'bounded_standin_runs': getattr(ctx, 'standin', []),
             'failed': [{'name': o['name'], 'failed': o.get('failed'), 'known_finding': o.get('known_finding', False)} for o in failed],
             'undecided': [{'name': o['name'], 'why': o.get('why')} for o in undec],
             'per_obligation': [{k: o.get(k) for k in ('name', 'engine', 'backend', 'status', 'time_s', 'checks', 'rlimit', 'cached', 'bounded', 'mode') if o.get(k) is not None} for o in obs],
